@@ -129,11 +129,13 @@ theorem sim_bfSetup {a b : SpecSt} (h : SpecSt.Sim a b) (path : Path) :
   | ok ds =>
     by_cases h4 : path ∈ a.failFiles
     · left; exact ⟨.os .other, by simp [h1, h2, h3, h4], by simp [h1, h2, h3, h4]⟩
+    by_cases h5 : ds.any Path.tooLong = true
+    · left; exact ⟨.os .other, by simp [h1, h2, h3, h4, h5], by simp [h1, h2, h3, h4, h5]⟩
     right
     have hm := sim_mkdirs ds h.fs
     have hfile : (mkdirs a.fs ds).isFile path = (mkdirs b.fs ds).isFile path := hm.isFile path
-    refine ⟨setupState a path ds, setupState b path ds, ds, by simp [h1, h2, h3, h4], ?_, ?_, rfl, rfl⟩
-    · simp [h1, h2, h3, h4]
+    refine ⟨setupState a path ds, setupState b path ds, ds, by simp [h1, h2, h3, h4, h5], ?_, ?_, rfl, rfl⟩
+    · simp [h1, h2, h3, h4, h5]
     constructor
     · simp only [setupState]
       rw [hfile]
